@@ -1904,13 +1904,13 @@ def parts(tier):
     return [
         Part(
             "udp", run_udp, strategy=udp_cases(),
-            n={"quick": 12000, "thorough": 16 * 10000},
+            n={"quick": 12000, "thorough": 16 * 40000},
             case_timeout_s=10.0,
             require=_udp_require(),
         ),
         Part(
             "stream", run_stream, strategy=stream_cases(),
-            n={"quick": 9000, "thorough": 16 * 7500},
+            n={"quick": 9000, "thorough": 16 * 30000},
             case_timeout_s=10.0,
             require=_stream_require(),
         ),
